@@ -20,7 +20,7 @@
    I -> R (SIR; without test_recovery every infectious node does: infectious for exactly one
    step), I -> S for every infectious node (SIS).  [dstopped]: after the last row no infected
    node is left or its time is not before tmax. *)
-From EoNV Require Import Prelude Samp Graph Discrete DiscreteP SampP DiscreteChk DiscreteRun DiscreteRunS DiscreteTop DiscreteC04.
+From EoNV Require Import Prelude Samp Graph Discrete DiscreteP SampP DiscreteChk DiscreteRun DiscreteRunS DiscreteTop DiscreteC04 DiscreteSafe.
 From EoNV Require Gillespie GillespieP.
 From Coq Require Import Permutation.
 
@@ -103,6 +103,38 @@ Theorem C04_discrete_SIR_monotone : forall os g tmin tmax l, dwf_rowsb true os g
   forall l1 a b l2, l = l1 ++ a :: b :: l2 -> (cntz (snd b) 0 <= cntz (snd a) 0)%Z /\ (cntz (snd a) 2 <= cntz (snd b) 2)%Z.
 Proof. exact accepted_SIR_monotone. Qed.
 
+(* an unbounded run (tmax = inf) ends with no infected node *)
+Theorem C04_discrete_unbounded_run_ends_without_infection : forall sir os g tmin l,
+  dwf_rowsb sir os g tmin None l = true -> exists l1 z, l = l1 ++ [z] /\ cntz (snd z) 1 = 0%Z.
+Proof. exact accepted_unbounded_ends_without_infection. Qed.
+
+(* --- no run ends in a Python-level failure: under rules that do not fail themselves
+   ([rules_safe]: no error from the test, none from random.choice on a non-empty list -- the
+   table rules and the code's default rule) a run of the model either returns or stops for lack
+   of scripted draws or of the model's fuel; and without test_recovery fuel > N is never
+   exhausted (the susceptible nodes strictly decrease while the loop runs), so every draw script
+   that is long enough yields a result *)
+Theorem C04_discrete_SIR_never_crashes : forall g R trec ord i0 r0o tmin tmax full fuel ds e tr, rules_safe R ->
+  exec (discrete_SIR g R trec ord (Some i0) r0o None tmin tmax full fuel) ds [] = (Err e, tr) ->
+  e = OutOfDraws \/ e = OutOfFuel.
+Proof. exact dsir_never_crashes. Qed.
+
+Theorem C04_basic_discrete_SIS_never_crashes : forall g R ord i0 tmin tmax full fuel ds e tr, rules_safe R ->
+  exec (basic_discrete_SIS_R g R ord (Some i0) None tmin tmax full fuel) ds [] = (Err e, tr) ->
+  e = OutOfDraws \/ e = OutOfFuel.
+Proof. exact dsis_never_crashes. Qed.
+
+Theorem C04_discrete_SIR_fuel_suffices : forall g R ord i0 r0o tmin tmax full fuel ds e tr, rules_safe R ->
+  wf_inputb g i0 (opt_list r0o) = true -> perm_oracle ord -> (full = true -> pick_sound R) ->
+  (length (gnodes g) < fuel)%nat ->
+  exec (discrete_SIR g R None ord (Some i0) r0o None tmin tmax full fuel) ds [] = (Err e, tr) -> e = OutOfDraws.
+Proof. exact dsir_fuel_suffices. Qed.
+
+Theorem C04_table_rules_safe : forall tt pick, rules_safe (det_rules tt pick).
+Proof. exact det_rules_safe. Qed.
+Theorem C04_default_rule_safe : forall p, rules_safe (simple_rules p).
+Proof. exact simple_rules_safe. Qed.
+
 (* the two rule families of the check satisfy [pick_sound] *)
 Theorem C04_table_rules_pick_sound : forall tt pick, pick_sound (det_rules tt pick).
 Proof. exact det_pick_sound. Qed.
@@ -175,6 +207,12 @@ Print Assumptions C04_discrete_counts_nonnegative_and_sum_to_N.
 Print Assumptions C04_discrete_kth_row_is_at_tmin_plus_k.
 Print Assumptions C04_discrete_never_exceeds_whole_step_horizon.
 Print Assumptions C04_discrete_SIR_monotone.
+Print Assumptions C04_discrete_unbounded_run_ends_without_infection.
+Print Assumptions C04_discrete_SIR_never_crashes.
+Print Assumptions C04_basic_discrete_SIS_never_crashes.
+Print Assumptions C04_discrete_SIR_fuel_suffices.
+Print Assumptions C04_table_rules_safe.
+Print Assumptions C04_default_rule_safe.
 Print Assumptions C04_table_rules_pick_sound.
 Print Assumptions C04_default_rule_pick_sound.
 Print Assumptions C04_disc_hypotheses_satisfiable.
